@@ -1,24 +1,79 @@
 /-
-C13 helper lemmas, part 6 (routes of any length): the last router of an acknowledged frame when the
-node it hands the NETWORK_ACK to is not necessarily the origin (`router_ack` of NrfProofs/C13Live.lean,
-generalised: the proof is the same walk through the router's `update()`).
+C13, the air log: the last router of an acknowledged frame (`router_ack_any` of NrfProofs/C13HopsLast.lean)
+with the log of transmissions `World.air`.  The proof is that of `router_ack_any`, with the air log followed
+through the intermediate states: the router's `update()` appends exactly two records, both by the router's
+own radio, single attempts reported sent — the data frame `pk` handed to the destination, then the
+NETWORK_ACK `pkA` handed back.  The reads, the radio set-up, the pause, the destination's `update()` run at
+the scheduling point and the context switches append nothing.
 -/
-import NrfProofs.C13HopsSys
+import NrfProofs.C13Air1
 
-namespace Nrf.Net.Hops
-open Nrf Nrf.Spec Nrf.Proofs Nrf.Props.C04
+namespace Nrf.Net.Air
+open Nrf Nrf.Spec Nrf.Proofs Nrf.Props.C04 Nrf.Net.Hops
 
-/-- **The last router of an acknowledged frame, anywhere on a route** (`y`, whose hop towards the
-    destination `d` is `d` itself; the frame comes from `o`, and `xa = nextHopSpec y o` — node `a`, the
-    router before `y` or the origin itself — is its neighbour on the way back).  Its `update()` reads the
-    frame, pauses 2 ms, delivers it to `d`, turns it into a NETWORK_ACK for `o` and hands that to `a`
-    — the destination taking its frame at the scheduling point of this second transmission — and
-    listens again.  `a` is suspended on the call stack, listening; it may have received frames before,
-    but not this acknowledgement.  Afterwards the whole network listens, the destination's queue has
-    gained the frame, `a`'s radio holds exactly the NETWORK_ACK, and the radios of the other suspended
-    nodes are untouched.  (Generalises `router_ack`, where `a` is the origin.)  The destination's radio must not have `pk` as the packet
-    accepted last (`NotDup`); it need not be fresh. -/
-theorem router_ack_any (hc : L3Contracts) (cfg : AddrCfg) (hcfg : CfgOk cfg) (L : LinkCfg) (tree : Nat → List Nat)
+/-- the radio set-up of `_write_to_pipe` (`tx_setup` of NrfProofs/C13Live.lean): nothing goes on the air -/
+private theorem tx_setup_air' (hc : L3Contracts) (hair : AirContracts) (f : Nat) (s : NetState) (L : LinkCfg) (Pa : List Bytes)
+    (rx ce : Bool) (aa tn tp : Nat) (A pk : Bytes)
+    (hcur : s.cur < s.nodes.length) (hWf : s.drv.Wf)
+    (hN : NodeRadio L Pa rx ce aa s.node.rf s.drv.radio)
+    (haddr : pipeAddress s.node.cfg tn tp = .ok A) (hAlen : A.length = 5)
+    (hmsg : s.node.frameBuf.message.length ≤ MAX_FRAG_SIZE)
+    (hpk : s.node.frameBuf.pack = .ok pk) (hnl : tn ≠ s.node.a.addr) :
+    ∃ D3 : DrvState, DrvFrame s.drv D3 ∧ NodeRadio L Pa false false 0x3F D3.d D3.radio ∧
+      D3.radio.rxFifo = s.drv.radio.rxFifo ∧ D3.radio.txAddr = A ∧ D3.radio.rxAddr0 = A ∧
+      (nexec (nodeWriteToPipe (f + 1) tn tp false) s =
+        match nexec (rfSend f pk) (s.afterRf D3) with
+        | (.ok true, s') => (.ok true, s')
+        | (.ok false, s') => nexec (txStandbyFor f s.node.txTimeout) s'
+        | (.error e, s') => (.error e, s')) ∧
+      D3.w.air = s.drv.w.air := by
+  obtain ⟨D1, e1, F1, N1, x1, _, _⟩ := hc.setAA s.drv L Pa rx ce aa 0x3F hWf hN (Or.inr rfl)
+  obtain ⟨D2, e2, F2, N2, x2⟩ := hc.listenOff D1 L Pa rx ce 0x3F (F1.wf hWf) N1
+  obtain ⟨D3, e3, F3, N3, x3, a3, t3⟩ := hc.openTx D2 L Pa false A ((F1.trans F2).wf hWf) N2 hAlen
+  have w1 := hair.setAA s.drv L Pa rx ce aa 0x3F hWf hN (Or.inr rfl)
+  rw [e1] at w1
+  have w2 := hair.listenOff D1 L Pa rx ce 0x3F (F1.wf hWf) N1
+  rw [e2] at w2
+  have w3 := hair.openTx D2 L Pa false A ((F1.trans F2).wf hWf) N2 hAlen
+  rw [e3] at w3
+  refine ⟨D3, (F1.trans F2).trans F3, N3, by rw [x3, x2, x1], t3, a3, ?_, by rw [w3, w2, w1]⟩
+  rw [nodeWriteToPipe.eq_2, nexec_bind, nexec_getNode]
+  have hno : ¬ (tn = s.node.a.addr ∧ (!false) = true) := fun h => hnl h.1
+  simp only [if_neg hno, Bool.false_eq_true, if_false]
+  have e63 : (62 + 1 : Int) = ((63 : Nat) : Int) := by decide
+  rw [e63, nexec_bind, nexec_liftRf_ok _ s _ D1 e1]
+  simp only []
+  rw [nexec_bind, nexec_liftRf_ok _ _ _ D2 (by rw [afterRf_drv s D1 hcur]; exact e2), afterRf_afterRf]
+  simp only []
+  have hpa : nexec (pipeAddr tn tp) (s.afterRf D2) = (.ok A, s.afterRf D2) := by
+    unfold Nrf.Net.pipeAddr
+    rw [nexec_bind, nexec_getNode]
+    simp only []
+    rw [afterRf_node s D2 hcur]
+    simp only []
+    rw [haddr, nexec_liftPy_ok]
+  rw [nexec_bind, hpa]
+  simp only []
+  rw [nexec_bind, nexec_liftRf_ok _ _ _ D3 (by rw [afterRf_drv s D2 hcur]; exact e3), afterRf_afterRf]
+  simp only []
+  rw [nexec_bind, nexec_getNode]
+  simp only []
+  rw [afterRf_node s D3 hcur]
+  simp only [hmsg, if_true]
+  rw [nexec_bind]
+  have : (Frame.pack s.node.frameBuf) = .ok pk := hpk
+  rw [this, nexec_liftPy_ok]
+  simp only []
+  rw [nexec_bind]
+  rcases nexec (rfSend f pk) (s.afterRf D3) with ⟨r, s'⟩
+  cases r with
+  | error e => rfl
+  | ok b => cases b <;> rfl
+
+/-- **The last router of an acknowledged frame, with the air log** (`router_ack_any`): the router's
+    `update()` puts exactly two transmissions on the air, both its own, single attempts, acknowledged:
+    the data frame `pk` to the destination, then the NETWORK_ACK `pkA` on its way back. -/
+theorem router_ack_any_air (hc : L3Contracts) (hair : AirContracts) (cfg : AddrCfg) (hcfg : CfgOk cfg) (L : LinkCfg) (tree : Nat → List Nat)
     (fr : Frame) (pk pkA : Bytes) (t : Nat) (o y d xa : List Nat) (T : AckTransitS fr pk t o d)
     (hpkA : (ackOf fr).pack = .ok pkA)
     (hndef : ∀ i, val (tree i) ≠ NETWORK_DEFAULT_ADDR)
@@ -39,7 +94,8 @@ theorem router_ack_any (hc : L3Contracts) (cfg : AddrCfg) (hcfg : CfgOk cfg) (L 
       (∀ k, k < s.nodes.length → k ≠ a → (s'.radioAt k).rxFifo = []) ∧
       (∀ k, k < s.nodes.length →
         (s'.nodeAt k).queue.frames = (s.nodeAt k).queue.frames ++ (if k = jd then [fr] else [])) ∧
-      (∀ k, k < s.nodes.length → k ∈ s.active → k ≠ r → k ≠ a → s'.radioAt k = s.radioAt k) := by
+      (∀ k, k < s.nodes.length → k ∈ s.active → k ≠ r → k ≠ a → s'.radioAt k = s.radioAt k) ∧
+      ∃ r1 r2 : AirRec, s'.w.air = s.w.air ++ [r1, r2] ∧ OneBy (s.ridAt r) pk r1 ∧ OneBy (s.ridAt r) pkA r2 := by
   have hxy : o ≠ y := hoy
   have hxan : IsNode xa := by have := (hok.node a ha).1; rw [hta] at this; exact this
   have hxay : xa ≠ y := by rw [← hback]; exact nextHop_ne_self (fun e => hoy e.symm)
@@ -61,7 +117,7 @@ theorem router_ack_any (hc : L3Contracts) (cfg : AddrCfg) (hcfg : CfgOk cfg) (L 
   have hWf : s.drv.Wf := by unfold DrvState.Wf; show s.node.rf.rid < s.w.radios.length; rw [hnode]; exact hn6
   have hT1 : fr.header.ty = t := by simp [Header.ty, T.ty]
   -- 1. the read
-  obtain ⟨D1, e1, F1, N1, x1⟩ := rfRead_head hc (g + 8 + jd) s L P true true 0x3E (by rw [hcur]; exact hr)
+  obtain ⟨D1, e1, F1, N1, x1, a1⟩ := rfRead_head_air hc hair (g + 8 + jd) s L P true true 0x3E (by rw [hcur]; exact hr)
     hok.closed (by omega) hq hWf (by rw [hnode, hdrv_rad]; exact hN) (by rw [hnode]; exact hn4)
     (by
       intro e he
@@ -144,7 +200,7 @@ theorem router_ack_any (hc : L3Contracts) (cfg : AddrCfg) (hcfg : CfgOk cfg) (L 
   have hl2p : logi2phys s2.node.a (val d) TX_ROUTED = (val d, hopPipe y d, false) := by
     rw [hs2n]; show logi2phys (s.nodeAt r).a _ _ = _
     rw [hn2, l2p_tree hn1 T.hd (Or.inr rfl), hy2]
-  obtain ⟨D, e3, r3, l3, f3, N3, x3, lr3, ⟨pid, hrb⟩, hoth3⟩ := hop_single hc (g + 6 + jd) (s2.slept 2000000) L P Pd jd
+  obtain ⟨D, e3, r3, l3, f3, N3, x3, lr3, ⟨pid, hrb⟩, hoth3, r1, har1, hone1⟩ := hop_single_air hc hair (g + 6 + jd) (s2.slept 2000000) L P Pd jd
     (hopPipe y d) (val d) (hopPipe y d) A pk
     (by simp; rw [hs2cur, hs2l]; exact hr) hs2cl (by simp; rw [hs2l]; omega)
     (by
@@ -190,6 +246,12 @@ theorem router_ack_any (hc : L3Contracts) (cfg : AddrCfg) (hcfg : CfgOk cfg) (L 
     rw [hoth3 ρ (by rw [slept_ridAt]; simp; rw [hs2rid, hs2cur]; exact hri) (by rw [slept_ridAt, hs2rid]; exact hrj),
       slept_radio, hs2w, F1.others ρ (by rw [← hridr]; exact hri)]
     rfl
+  have hDair : D.w.air = s.w.air ++ [r1] := by
+    rw [har1]; show s2.w.air ++ _ = _; rw [hs2w, a1]
+  have hone1' : OneBy (s.ridAt r) pk r1 := by
+    have hrid1 : (s2.slept 2000000).ridAt (s2.slept 2000000).cur = s.ridAt r := by
+      rw [slept_ridAt, hs2rid]; show s.ridAt s2.cur = _; rw [hs2cur]
+    rw [hrid1] at hone1; exact hone1
   have hDrid : D.d.rid = s.ridAt r := by
     rw [r3, slept_node, hs2n]; show D1.d.rid = _; rw [F1.rid]; exact hridr.symm
   have hDfifo : D.radio.rxFifo = [] := by rw [x3, slept_drv_radio, hs2drv]; exact x1
@@ -253,12 +315,13 @@ theorem router_ack_any (hc : L3Contracts) (cfg : AddrCfg) (hcfg : CfgOk cfg) (L 
     intro k hk
     rw [← hs4, nodeAt_setNode, if_neg (fun h => hk (h.1.trans hs3c)), hs3at k hk]
   have hs4drv : s4.drv = D := by unfold NetState.drv; rw [hs4n, hs4w]
-  obtain ⟨Dt, Ft, Nt, xt, tt, at', eqt⟩ := tx_setup hc (g + 6 + jd) s4 L P false true 0x3F (val xa) (hopPipe y o) A' pkA
+  obtain ⟨Dt, Ft, Nt, xt, tt, at', eqt, hDtair0⟩ := tx_setup_air' hc hair (g + 6 + jd) s4 L P false true 0x3F (val xa) (hopPipe y o) A' pkA
     (by rw [hs4c, hs4l]; exact hr) (by rw [hs4drv]; exact hDW) (by rw [hs4n, hs4drv]; exact N3)
     (by rw [hs4n]; show pipeAddress (s.nodeAt r).cfg _ _ = _; rw [hn3]; exact hA'1) hA'len
     (by rw [hs4n]; exact T.len) (by rw [hs4n]; exact hpkA)
     (by rw [hs4n]; show _ ≠ (s.nodeAt r).a.addr; rw [hn2]; exact fun e => hxay (val_inj hxan.1 hn1.1 e))
-  rw [hs4drv] at Ft xt
+  rw [hs4drv] at Ft xt hDtair0
+  have hDtair : Dt.w.air = s.w.air ++ [r1] := by rw [hDtair0, hDair]
   -- 5. the scheduling point of the second transmission: the destination takes its frame
   generalize hs5 : s4.afterRf Dt = s5 at eqt
   have hs5c : s5.cur = r := by rw [← hs5]; exact hs4c
@@ -305,7 +368,7 @@ theorem router_ack_any (hc : L3Contracts) (cfg : AddrCfg) (hcfg : CfgOk cfg) (L 
   obtain ⟨hd1, hd2, hd3, hd4, hd5, hd6⟩ := hok.node jd hjd
   rw [htd] at hd2
   have hsjdrad : sj.drv.radio = sj.radioAt jd := by rw [← hsjc]; rfl
-  obtain ⟨Dj1, Dj2, ej, Fj1, Fj2, Nj2, xj2⟩ := dest_update_sys hc g sj L Pd (hopPipe y d) pk fr t d
+  obtain ⟨Dj1, Dj2, ej, Fj1, Fj2, Nj2, xj2, aj⟩ := dest_update_sys_air hc hair g sj L Pd (hopPipe y d) pk fr t d
     (by rw [hsjc, hsjl]; exact hjd) (by rw [← hsj]; exact hs5cl) (by rw [hsjl]; exact hg)
     (by
       intro k hk hkc hka
@@ -332,6 +395,8 @@ theorem router_ack_any (hc : L3Contracts) (cfg : AddrCfg) (hcfg : CfgOk cfg) (L 
     (by rw [T.src]; exact isValid_val T.hx)
     (by rw [hsjnode, ← hsj, retSys_switchTo, hs5at jd hjdr]; exact hsys)
     (by rw [hsjnode, hsjq, hs5at jd hjdr]; exact hacc)
+  have hDj2air : Dj2.w.air = s.w.air ++ [r1] := by
+    rw [aj, ← hsj]; show s5.w.air = _; rw [hs5w, hDtair]
   obtain ⟨dc, da, dcl, dw, dl, dne, drf, dq, drid⟩ := delivered_facts sj fr Dj1 Dj2 (by rw [hsjc, hsjl]; exact hjd) Fj1 Fj2
   rw [hsjc] at dne drf dq
   generalize hsj' : sj.delivered fr Dj1 Dj2 = sj' at ej dc da dcl dw dl dne drf dq drid
@@ -350,6 +415,8 @@ theorem router_ack_any (hc : L3Contracts) (cfg : AddrCfg) (hcfg : CfgOk cfg) (L 
   have hs6cl : s6.closed = true := by rw [← hs6]; show sj'.closed = true; rw [dcl, ← hsj]; exact hs5cl
   have hs6wr : ∀ ρ, s6.w.radio ρ = Dj2.w.radio ρ := by
     intro ρ; rw [← hs6]; show sj'.w.radio ρ = _; rw [dw]
+  have hs6air : s6.w.air = s.w.air ++ [r1] := by
+    rw [← hs6]; show sj'.w.air = _; rw [dw, hDj2air]
   have hs6rf : ∀ k, (s6.nodeAt k).rf = (sj'.nodeAt k).rf := by
     intro k; rw [← hs6]; exact (nodeAt_switchBack sj' r jd k).1
   have hs6q : ∀ k, (s6.nodeAt k).queue = (sj'.nodeAt k).queue := by
@@ -441,6 +508,21 @@ theorem router_ack_any (hc : L3Contracts) (cfg : AddrCfg) (hcfg : CfgOk cfg) (L 
     (by
       show ((s6.w.radio (s.ridAt a)).receive _).2 = _
       rw [hs6rada, hkA, hrecvA])
+  obtain ⟨r2, har2, hr2s, hr2p, hr2a, hr2o⟩ := hair.send s6.drv L P false pkA (s.ridAt a)
+    (by unfold DrvState.Wf; rw [hs6drvd, hDtrid]; show _ < s6.w.radios.length; rw [hs6rlen]; exact hn6)
+    (by rw [hs6drvd, hs6drvrad]; exact Nt) (by rw [hs6drvrad, tt, at'])
+    (by omega) (by have := T.len; unfold MAX_FRAG_SIZE at this; omega) hs6faults
+    (by rw [hs6drvd, hDtrid]; exact fun e => hridra e.symm)
+    (by
+      show ((s6.w.radio (s.ridAt a)).receive _).2 = _
+      rw [hs6rada, hkA, hrecvA])
+  rw [e4] at har2
+  have hD4air : D4.w.air = s.w.air ++ [r1] ++ [r2] := by
+    rw [har2]; show s6.w.air ++ _ = _; rw [hs6air]
+  have hone2 : OneBy (s.ridAt r) pkA r2 := by
+    refine ⟨?_, ?_, hr2a, hr2o⟩
+    · rw [hr2s, hs6drvd]; exact hDtrid
+    · rw [hr2p, hkA]; rfl
   have hD4rid : D4.d.rid = s.ridAt r := by rw [r4, hs6drvd]; exact hDtrid
   have hD4a : D4.w.radio (s.ridAt a) = (s.radioAt a).withRx [{ pipe := hopPipe y o, data := pkA }]
       { pid := Dt.radio.nextPid, addr := A', data := pkA } := by
@@ -476,7 +558,7 @@ theorem router_ack_any (hc : L3Contracts) (cfg : AddrCfg) (hcfg : CfgOk cfg) (L 
   -- 8. listening again
   have hs6cur : s6.cur < s6.nodes.length := by rw [hs6c, hs6l]; exact hr
   have hD4W : D4.Wf := by unfold DrvState.Wf; rw [hD4rid, l4]; show _ < s6.w.radios.length; rw [hs6rlen]; exact hn6
-  obtain ⟨D5, e5a, e5b, F5, N5, x5⟩ := restore hc s6 D4 L P true hs6cur hD4W N4
+  obtain ⟨D5, e5a, e5b, F5, N5, x5, a5⟩ := restore_air hc hair s6 D4 L P true hs6cur hD4W N4
   have hemitval : nexec (ackCont (g + 6 + jd + 1) AckAction.emit true false) s3 = (.ok true, s6.afterRf D5) := by
     unfold ackCont
     simp only [nexec_bind, nexec_getNode, nexec_setHdr]
@@ -533,7 +615,7 @@ theorem router_ack_any (hc : L3Contracts) (cfg : AddrCfg) (hcfg : CfgOk cfg) (L 
   have hD5fifo : D5.radio.rxFifo = [] := by
     rw [x5, x4, hs6drvrad, xt]; exact hDfifo
   -- 9. nothing more to read
-  obtain ⟨D6, e6, F6, N6, x6⟩ := rfRead_head hc (g + 7 + jd) s8 L P true true 0x3E (by rw [hs8c, hs8l]; exact hr)
+  obtain ⟨D6, e6, F6, N6, x6, a6⟩ := rfRead_head_air hc hair (g + 7 + jd) s8 L P true true 0x3E (by rw [hs8c, hs8l]; exact hr)
     hs8cl (by rw [hs8l]; omega)
     (by
       intro k hk hkc hka
@@ -551,6 +633,8 @@ theorem router_ack_any (hc : L3Contracts) (cfg : AddrCfg) (hcfg : CfgOk cfg) (L 
       rw [hs5ati, hs5n]; exact hn4)
     (by rw [hs8drv, hD5fifo]; simp)
   rw [hs8drv, hD5fifo] at e6 x6
+  have hD6air : D6.w.air = s.w.air ++ [r1, r2] := by
+    rw [a6, ← hs8]; show D5.w.air = _; rw [a5, hD4air]; simp
   simp only [List.head?_nil, Option.map_none, List.tail_nil] at e6 x6
   rw [show g + 9 + jd = (g + 8 + jd) + 1 from by omega, netUpdate_step,
     show g + 8 + jd = (g + 7 + jd) + 1 from by omega, e6] at step1
@@ -611,7 +695,8 @@ theorem router_ack_any (hc : L3Contracts) (cfg : AddrCfg) (hcfg : CfgOk cfg) (L 
     unfold NetState.radioAt
     rw [hs9rid, hs9w, F6.others _ (by rw [hs8drv, hD5rid]; exact (hok.inj k r hk hr hkr).2), hs8rid, hs8drv]
     exact (hs8w _).symm
-  refine ⟨s9, ?_, ?_, hs9c, by rw [← hs9]; exact hs8a, hsame9, ?_, ?_, ?_, ?_⟩
+  refine ⟨s9, ?_, ?_, hs9c, by rw [← hs9]; exact hs8a, hsame9, ?_, ?_, ?_, ?_,
+    r1, r2, by rw [← hs9]; show D6.w.air = _; exact hD6air, hone1', hone2⟩
   · rw [show g + 11 + jd = (g + 10 + jd) + 1 from by omega]
     refine nodeUpdate_plain (g + 10 + jd) s s9 0 step1 ?_
     have := (hsame9.stat r).2.2.2.1
@@ -666,4 +751,5 @@ theorem router_ack_any (hc : L3Contracts) (cfg : AddrCfg) (hcfg : CfgOk cfg) (L 
     have hkj : k ≠ jd := fun e => hjda (e ▸ hkact)
     rw [hs9rad k hk hkr, hs8rad k hk hkr hka hkj]
 
-end Nrf.Net.Hops
+
+end Nrf.Net.Air
